@@ -1358,6 +1358,16 @@ int uv_write2(uv_write_t* req,
    */
   empty_queue = (stream->write_queue_size == 0);
 
+  /* Allocate before the request is registered: an early return must leave
+   * loop->active_reqs.count as it was.
+   */
+  req->bufs = req->bufsml;
+  if (nbufs > ARRAY_SIZE(req->bufsml))
+    req->bufs = uv__malloc(nbufs * sizeof(bufs[0]));
+
+  if (req->bufs == NULL)
+    return UV_ENOMEM;
+
   /* Initialize the req */
   uv__req_init(stream->loop, req, UV_WRITE);
   req->cb = cb;
@@ -1365,13 +1375,6 @@ int uv_write2(uv_write_t* req,
   req->error = 0;
   req->send_handle = send_handle;
   uv__queue_init(&req->queue);
-
-  req->bufs = req->bufsml;
-  if (nbufs > ARRAY_SIZE(req->bufsml))
-    req->bufs = uv__malloc(nbufs * sizeof(bufs[0]));
-
-  if (req->bufs == NULL)
-    return UV_ENOMEM;
 
   memcpy(req->bufs, bufs, nbufs * sizeof(bufs[0]));
   req->nbufs = nbufs;
